@@ -529,6 +529,15 @@ func (r *runner) step(i int, o *sop) (e ev, stop bool) {
 		e["treeid"] = []int{r.bkt.TreeID.Chunk, r.bkt.TreeID.Split}
 		e["files"] = r.listFiles()
 		e["meta"] = r.metaAll()
+		// keys present in the (durable) collision table after opening
+		ck := []string{}
+		for _, grp := range r.bkt.hints.collisions.Items {
+			for k := range grp {
+				ck = append(ck, mk(k))
+			}
+		}
+		sort.Strings(ck)
+		e["ctab"] = ck
 	case "gc":
 		// sequential family: no rotation flush is pending when GC is requested (the race
 		// "GC over a just rotated, not yet flushed file" belongs to the schedule family)
